@@ -38,7 +38,7 @@ def c19(ctx: Ctx):
         with open(cases, "a") as f:
             f.write(open(req).read())
         log("[gen] + %d request/response cases" % n)
-        ctx.exhaustive = True
+        ctx.exhaustive = not getattr(ctx, "sliced", False)
     # the configurations part of the quantifier: the option sets every rejected value is validated under (spec/Gen_C19O.tla)
     ctx.tlc("Gen_C19O", "Gen_C19O.cfg", label="F generate option sets (mode x reading x extra x way of hiding the value)")
     optsp = os.path.join(ctx.scratch, "opts.ndjson")
